@@ -8,9 +8,12 @@ transliterations, all reads `a[i]'h`), public operations = constructor ∘ kerne
 
 Proved here (all sizes, all coincidence patterns): *soundness of intersect* — every interval the
 sweep emits is exactly `A[i] ∩ B[j]` for the parent indices it records, has positive length, hence
-every instant of the result lies in both operands.  Completeness of intersect and the pointwise
-statements for union and set_diff are **not proved yet**: they are decided by the exhaustive
-order-type correspondence + pointwise oracle of the check (stated in the evidence).
+every instant of the result lies in both operands; the *n-ary union* kernel `jitunion_isets`
+pointwise and exactly (`unionIsets_mem`: x in the output ⇔ x in some input interval); *set_diff ⊆ A*
+with every emitted piece inside the interval of A recorded as its parent (`diff_entries`,
+`diff_subset`).  Completeness of intersect / set_diff and the pointwise statement for the binary
+`jitunion` are **not proved**: they are decided by the exhaustive order-type correspondence +
+pointwise oracle of the check (stated in the evidence).
 -/
 namespace Pyn.C02
 open Pyn
@@ -44,6 +47,265 @@ theorem intersect_positive (s1 e1 s2 e2 : Array Int) (h1 : s1.size = e1.size) (h
   rw [hs, he]
   have := hc1 _ hi; have := hc2 _ hj
   omega
+
+/-! ## n-ary union: pointwise and exact; set_diff: every piece inside its recorded parent -/
+
+/-- `x` lies in one of the closed intervals of a kernel output -/
+def InU (o : UOut) (x : Int) : Prop :=
+  ∃ k, ∃ h1 : k < o.st.size, ∃ h2 : k < o.en.size, o.st[k] ≤ x ∧ x ≤ o.en[k]
+
+theorem InU_push (o : UOut) (hsz : o.st.size = o.en.size) (s e x : Int) :
+    InU { st := o.st.push s, en := o.en.push e } x ↔ InU o x ∨ (s ≤ x ∧ x ≤ e) := by
+  constructor
+  · rintro ⟨k, h1, h2, a, b⟩
+    simp only [Array.size_push] at h1 h2
+    by_cases hk : k < o.st.size
+    · left
+      refine ⟨k, hk, by omega, ?_, ?_⟩
+      · simpa [Array.getElem_push_lt hk] using a
+      · have hk2 : k < o.en.size := by omega
+        simpa [Array.getElem_push_lt hk2] using b
+    · right
+      have hk1 : k = o.st.size := by omega
+      subst hk1
+      constructor
+      · simpa using a
+      · have : o.st.size = o.en.size := hsz
+        simp only [this] at b ⊢
+        simpa using b
+  · rintro (⟨k, h1, h2, a, b⟩ | ⟨a, b⟩)
+    · refine ⟨k, by simp; omega, by simp; omega, ?_, ?_⟩
+      · simpa [Array.getElem_push_lt h1] using a
+      · simpa [Array.getElem_push_lt h2] using b
+    · refine ⟨o.st.size, by simp, by simp; omega, ?_, ?_⟩
+      · simpa using a
+      · simp only [hsz]; simpa using b
+
+theorem unionIsetsLoop_sizes (st en : Array Int) (h : st.size = en.size) (i : Nat) (curS e : Int) (out : UOut)
+    (hsz : out.st.size = out.en.size) :
+    (unionIsetsLoop st en h i curS e out).st.size = (unionIsetsLoop st en h i curS e out).en.size := by
+  fun_induction unionIsetsLoop st en h i curS e out with
+  | case1 i curS e out hi hgt ih => exact ih (by simp [hsz])
+  | case2 i curS e out hi hle ih => exact ih hsz
+  | case3 i curS e out hi => simp [hsz]
+
+theorem unionIsetsLoop_mem (st en : Array Int) (h : st.size = en.size) (hs : Sorted st) (x : Int)
+    (i : Nat) (curS e : Int) (out : UOut) (hsz : out.st.size = out.en.size)
+    (hcur : ∀ k, i ≤ k → (hk : k < st.size) → curS ≤ st[k]) :
+    InU (unionIsetsLoop st en h i curS e out) x ↔
+      InU out x ∨ (curS ≤ x ∧ x ≤ e) ∨ ∃ j, i ≤ j ∧ ∃ hj : j < st.size, st[j] ≤ x ∧ x ≤ en[j]'(h ▸ hj) := by
+  fun_induction unionIsetsLoop st en h i curS e out with
+  | case1 i curS e out hi hgt ih =>
+    rw [ih (by simp [hsz]) (fun k hk hk2 => hs i k hi hk2 (by omega)), InU_push out hsz]
+    constructor
+    · rintro ((a | a) | a | ⟨j, hj, hj2, a⟩)
+      · exact Or.inl a
+      · exact Or.inr (Or.inl a)
+      · exact Or.inr (Or.inr ⟨i, Nat.le_refl _, hi, a⟩)
+      · exact Or.inr (Or.inr ⟨j, by omega, hj2, a⟩)
+    · rintro (a | a | ⟨j, hj, hj2, a⟩)
+      · exact Or.inl (Or.inl a)
+      · exact Or.inl (Or.inr a)
+      · by_cases hji : j = i
+        · subst hji; exact Or.inr (Or.inl a)
+        · exact Or.inr (Or.inr ⟨j, by omega, hj2, a⟩)
+  | case2 i curS e out hi hle ih =>
+    rw [ih hsz (fun k hk hk2 => hcur k (by omega) hk2)]
+    have hci := hcur i (Nat.le_refl _) hi
+    have hle' : st[i] ≤ e := by omega
+    constructor
+    · rintro (a | ⟨a, b⟩ | ⟨j, hj, hj2, a⟩)
+      · exact Or.inl a
+      · by_cases hxe : x ≤ e
+        · exact Or.inr (Or.inl ⟨a, hxe⟩)
+        · refine Or.inr (Or.inr ⟨i, Nat.le_refl _, hi, by omega, ?_⟩)
+          have : x ≤ max e (en[i]'(h ▸ hi)) := b
+          omega
+      · exact Or.inr (Or.inr ⟨j, by omega, hj2, a⟩)
+    · rintro (a | ⟨a, b⟩ | ⟨j, hj, hj2, a, b⟩)
+      · exact Or.inl a
+      · exact Or.inr (Or.inl ⟨a, by omega⟩)
+      · by_cases hji : j = i
+        · subst hji
+          exact Or.inr (Or.inl ⟨by omega, by omega⟩)
+        · exact Or.inr (Or.inr ⟨j, by omega, hj2, a, b⟩)
+  | case3 i curS e out hi =>
+    rw [InU_push out hsz]
+    constructor
+    · rintro (a | a)
+      · exact Or.inl a
+      · exact Or.inr (Or.inl a)
+    · rintro (a | a | ⟨j, hj, hj2, _⟩)
+      · exact Or.inl a
+      · exact Or.inr a
+      · omega
+
+/-- **n-ary union (`jitunion_isets`), pointwise and exact**: for interval arrays sorted by start (the
+kernel's own `argsort`), any number of intervals, any overlaps / nesting / touching / duplicates: an
+instant lies in an output interval iff it lies in one of the input intervals -/
+theorem unionIsets_mem (st en : Array Int) (h : st.size = en.size) (hs : Sorted st) (x : Int) :
+    InU (jitunionIsets st en h) x ↔ InIv st en h x := by
+  unfold jitunionIsets
+  split
+  · rename_i hn
+    rw [unionIsetsLoop_mem st en h hs x 1 st[0] (en[0]'(h ▸ hn)) {} rfl (fun k _ hk => hs 0 k hn hk (Nat.zero_le _))]
+    constructor
+    · rintro (⟨k, h1, _⟩ | a | ⟨j, _, hj, a⟩)
+      · simp at h1
+      · exact ⟨0, hn, a⟩
+      · exact ⟨j, hj, a⟩
+    · rintro ⟨j, hj, a⟩
+      by_cases hj0 : j = 0
+      · subst hj0; exact Or.inr (Or.inl a)
+      · exact Or.inr (Or.inr ⟨j, by omega, hj, a⟩)
+  · rename_i hn
+    constructor
+    · rintro ⟨k, h1, _⟩; simp at h1
+    · rintro ⟨j, hj, _⟩; omega
+
+
+/-- entry `k` of a set_diff output lies inside the operand-A interval recorded as its parent -/
+def DEntryOK (s1 e1 : Array Int) (h1 : s1.size = e1.size) (a b : Int) (p : Nat) : Prop :=
+  ∃ hp : p < s1.size, s1[p] ≤ a ∧ b ≤ e1[p]'(h1 ▸ hp)
+
+def DOutOK (s1 e1 : Array Int) (h1 : s1.size = e1.size) (o : DOut) : Prop :=
+  o.st.size = o.en.size ∧ o.st.size = o.par.size ∧
+  ∀ k, (hk : k < o.st.size) → (hk2 : k < o.en.size) → (hk3 : k < o.par.size) →
+    DEntryOK s1 e1 h1 o.st[k] o.en[k] o.par[k]
+
+theorem DOutOK_push (s1 e1 : Array Int) (h1) (o : DOut) (ho : DOutOK s1 e1 h1 o) (a b : Int) (p : Nat)
+    (hn : DEntryOK s1 e1 h1 a b p) : DOutOK s1 e1 h1 (o.push a b p) := by
+  obtain ⟨ha, hb, hc⟩ := ho
+  refine ⟨by simp [DOut.push, ha], by simp [DOut.push, hb], ?_⟩
+  intro k hk hk2 hk3
+  simp only [DOut.push, Array.size_push] at hk hk2 hk3
+  by_cases hlt : k < o.st.size
+  · have := hc k hlt (by omega) (by omega)
+    simpa [DOut.push, Array.getElem_push_lt hlt, Array.getElem_push_lt (show k < o.en.size by omega),
+      Array.getElem_push_lt (show k < o.par.size by omega)] using this
+  · have hk' : k = o.st.size := by omega
+    subst hk'
+    have e2 : o.st.size = o.en.size := ha
+    have e3 : o.st.size = o.par.size := hb
+    simp only [DOut.push]
+    have g1 : (o.st.push a)[o.st.size]'(by simp) = a := by simp
+    have g2 : (o.en.push b)[o.st.size]'(by simp [← e2]) = b := by simp [e2]
+    have g3 : (o.par.push p)[o.st.size]'(by simp [← e3]) = p := by simp [e3]
+    rw [g1, g2, g3]; exact hn
+
+theorem diffGaps_ok (s1 e1 s2 e2 : Array Int) (h1 : s1.size = e1.size) (h2 : s2.size = e2.size)
+    (he2 : Sorted e2) (i : Nat) (hi : i < s1.size) (j0 : Nat) (hj0 : j0 < e2.size) (hgt : e2[j0] > s1[i])
+    (j : Nat) (hj1 : 1 ≤ j) (hjj : j0 + 1 ≤ j) (out : DOut) (ho : DOutOK s1 e1 h1 out) :
+    DOutOK s1 e1 h1 (diffGaps s2 e2 h2 (e1[i]'(h1 ▸ hi)) i j hj1 out).1.2 := by
+  induction hn : s2.size - j generalizing j out with
+  | zero =>
+    unfold diffGaps
+    have : ¬ j < s2.size := by omega
+    simp [this]; exact ho
+  | succ n ih =>
+    unfold diffGaps
+    have hj : j < s2.size := by omega
+    simp only [dif_pos hj]
+    split
+    · rename_i hlt
+      apply ih (j+1) (by omega) (by omega) _ _ (by omega)
+      apply DOutOK_push _ _ _ _ ho
+      refine ⟨hi, ?_, Int.le_of_lt hlt⟩
+      have := he2 j0 (j-1) hj0 (by omega) (by omega)
+      omega
+    · exact ho
+
+theorem jitdiffLoop_ok (s1 e1 s2 e2 : Array Int) (h1 : s1.size = e1.size) (h2 : s2.size = e2.size)
+    (he2 : Sorted e2) (i j : Nat) (out : DOut) (ho : DOutOK s1 e1 h1 out) :
+    DOutOK s1 e1 h1 (jitdiffLoop s1 e1 s2 e2 h1 h2 i j out).2 := by
+  induction hn : s1.size - i generalizing i j out with
+  | zero =>
+    unfold jitdiffLoop
+    have : ¬ i < s1.size := by omega
+    simp [this]; exact ho
+  | succ n ih =>
+    have hi : i < s1.size := by omega
+    unfold jitdiffLoop
+    simp only [dif_pos hi]
+    split
+    · rename_i hj
+      have hsk := skipTo_spec e2 s1[i] j hj
+      split
+      · rename_i hov
+        split
+        · exact ih (i+1) _ _ ho (by omega)
+        · rename_i hnot
+          -- the emitted pieces
+          by_cases hc : s2[skipTo e2 s1[i] j]'(h2 ▸ hj) > s1[i]
+          · simp only [hc, if_true]
+            have ho1 : DOutOK s1 e1 h1 (out.push s1[i] (s2[skipTo e2 s1[i] j]'(h2 ▸ hj)) i) :=
+              DOutOK_push _ _ _ _ ho _ _ _ ⟨hi, Int.le_refl _, Int.le_of_lt hov⟩
+            have hg := diffGaps_ok s1 e1 s2 e2 h1 h2 he2 i hi (skipTo e2 s1[i] j) hj hsk
+              (skipTo e2 s1[i] j + 1) (by omega) (Nat.le_refl _) (out.push s1[i] (s2[skipTo e2 s1[i] j]'(h2 ▸ hj)) i) ho1
+            split
+            · rename_i hlast
+              apply ih (i+1) _ _ _ (by omega)
+              apply DOutOK_push _ _ _ _ hg
+              refine ⟨hi, ?_, Int.le_refl _⟩
+              have hb := (diffGaps s2 e2 h2 (e1[i]'(h1 ▸ hi)) i (skipTo e2 s1[i] j + 1) (by omega) (out.push s1[i] (s2[skipTo e2 s1[i] j]'(h2 ▸ hj)) i)).2
+              have key : ∀ (G : Nat) (hG2 : G ≤ s2.size) (hG3 : skipTo e2 s1[i] j + 1 ≤ G),
+                  e2[skipTo e2 s1[i] j] ≤ e2[G - 1]'(by omega) :=
+                fun G hG2 hG3 => he2 (skipTo e2 s1[i] j) (G - 1) hj (by omega) (by omega)
+              have := key _ (hb.2.2 (by omega)) hb.2.1
+              show s1[i] ≤ _
+              exact Int.le_trans (Int.le_of_lt hsk) this
+            · exact ih (i+1) _ _ hg (by omega)
+          · simp only [hc, if_false]
+            have hg := diffGaps_ok s1 e1 s2 e2 h1 h2 he2 i hi (skipTo e2 s1[i] j) hj hsk
+              (skipTo e2 s1[i] j + 1) (by omega) (Nat.le_refl _) out ho
+            split
+            · rename_i hlast
+              apply ih (i+1) _ _ _ (by omega)
+              apply DOutOK_push _ _ _ _ hg
+              refine ⟨hi, ?_, Int.le_refl _⟩
+              have hb := (diffGaps s2 e2 h2 (e1[i]'(h1 ▸ hi)) i (skipTo e2 s1[i] j + 1) (by omega) out).2
+              have key : ∀ (G : Nat) (hG2 : G ≤ s2.size) (hG3 : skipTo e2 s1[i] j + 1 ≤ G),
+                  e2[skipTo e2 s1[i] j] ≤ e2[G - 1]'(by omega) :=
+                fun G hG2 hG3 => he2 (skipTo e2 s1[i] j) (G - 1) hj (by omega) (by omega)
+              have := key _ (hb.2.2 (by omega)) hb.2.1
+              show s1[i] ≤ _
+              exact Int.le_trans (Int.le_of_lt hsk) this
+            · exact ih (i+1) _ _ hg (by omega)
+      · apply ih (i+1) _ _ _ (by omega)
+        exact DOutOK_push _ _ _ _ ho _ _ _ ⟨hi, Int.le_refl _, Int.le_refl _⟩
+    · exact ho
+
+theorem emitRestD_ok (s1 e1 : Array Int) (h1 : s1.size = e1.size) (i : Nat) (out : DOut) (ho : DOutOK s1 e1 h1 out) :
+    DOutOK s1 e1 h1 (emitRestD s1 e1 h1 i out) := by
+  induction hn : s1.size - i generalizing i out with
+  | zero =>
+    unfold emitRestD
+    have : ¬ i < s1.size := by omega
+    simp [this]; exact ho
+  | succ n ih =>
+    have hi : i < s1.size := by omega
+    unfold emitRestD
+    simp only [dif_pos hi]
+    exact ih (i+1) _ (DOutOK_push _ _ _ _ ho _ _ _ ⟨hi, Int.le_refl _, Int.le_refl _⟩) (by omega)
+
+/-- **set_diff, parents**: for any A and any B whose ends are non-decreasing (every IntervalSet), each
+interval emitted by `jitdiff` lies inside the interval of A recorded as its parent — so the metadata
+row `set_diff` attaches to a piece is the row of the interval that contains it (C13), and the result
+is a subset of A (C02) -/
+theorem diff_entries (s1 e1 s2 e2 : Array Int) (h1 : s1.size = e1.size) (h2 : s2.size = e2.size) (he2 : Sorted e2) :
+    DOutOK s1 e1 h1 (jitdiff s1 e1 s2 e2 h1 h2) := by
+  unfold jitdiff
+  exact emitRestD_ok s1 e1 h1 _ _ (jitdiffLoop_ok s1 e1 s2 e2 h1 h2 he2 0 0 {} ⟨rfl, rfl, fun k hk => by simp at hk⟩)
+
+theorem diff_subset (s1 e1 s2 e2 : Array Int) (h1 : s1.size = e1.size) (h2 : s2.size = e2.size) (he2 : Sorted e2)
+    (k : Nat) (hk : k < (jitdiff s1 e1 s2 e2 h1 h2).st.size) (x : Int)
+    (hx1 : (jitdiff s1 e1 s2 e2 h1 h2).st[k] ≤ x)
+    (hx2 : x ≤ (jitdiff s1 e1 s2 e2 h1 h2).en[k]'((diff_entries s1 e1 s2 e2 h1 h2 he2).1 ▸ hk)) :
+    InIv s1 e1 h1 x := by
+  obtain ⟨ha, hb, hc⟩ := diff_entries s1 e1 s2 e2 h1 h2 he2
+  obtain ⟨hp, a, b⟩ := hc k hk (ha ▸ hk) (hb ▸ hk)
+  exact ⟨_, hp, by omega, by omega⟩
+
 
 /-! non-vacuity / concrete sweeps (shared starts, shared ends, end == start, nested, interleaved) -/
 example : (jitintersect #[0, 10] #[5, 20] #[3, 5, 15] #[4, 12, 20] rfl rfl).st = #[3, 10, 15] := by decide +kernel
